@@ -77,6 +77,78 @@ def main():
     except ValueError:
         pass
     assert cubed.Spec(allowed_mem="1GB").allowed_mem == 1_000_000_000
+    # --- wider sample of the public surface -------------------------------------------------
+    bn = np.arange(16.0, 32.0).reshape(4, 4)
+    b2 = xp.asarray(bn, chunks=(4, 1), spec=spec)  # chunked differently from a
+    assert np.allclose(xp.stack([a, b2]).compute(), np.stack([an, bn]))
+    assert np.allclose(xp.add(a, b2).compute(), an + bn)
+    assert np.allclose(xp.broadcast_to(xp.asarray(np.arange(4.0), chunks=2, spec=spec), (3, 4)).compute(), np.broadcast_to(np.arange(4.0), (3, 4)))
+    assert np.allclose(xp.reshape(a, (2, 2, 4)).compute(), an.reshape(2, 2, 4))
+    assert np.allclose(xp.permute_dims(a, (1, 0)).compute(), an.T)
+    assert np.allclose(xp.expand_dims(a, axis=0).compute(), an[None])
+    assert np.array_equal(xp.argmax(a, axis=1).compute(), an.argmax(axis=1))
+    assert np.allclose(xp.max(a, axis=0).compute(), an.max(axis=0))
+    assert np.allclose(xp.cumulative_sum(xp.asarray(np.arange(8.0), chunks=2, spec=spec)).compute(), np.cumsum(np.arange(8.0)))
+    assert np.allclose(xp.where(a > 5, a, b).compute(), np.where(an > 5, an, 1.0))
+    assert np.allclose(xp.repeat(a, 2, axis=0).compute(), np.repeat(an, 2, axis=0))
+    assert np.allclose(a[1, :].compute(), an[1, :])
+    assert np.allclose(a[[0, 2], :].compute(), an[[0, 2], :])
+    assert np.allclose(xp.zeros_like(a).compute(), 0) and xp.ones((3, 3), chunks=2, spec=spec).compute().sum() == 9
+    r1 = cubed.random.random((4, 4), chunks=2, spec=spec)
+    v1, v2 = r1.compute(), r1.compute()
+    assert np.array_equal(v1, v2) and len(np.unique(v1)) > 8
+    fa = cubed.from_array(an, chunks=(2, 2), spec=spec)
+    assert np.allclose(fa.compute(), an)
+
+    def blk(x, block_id=None):
+        return x + block_id[0] * 10 + block_id[1]
+
+    mb = cubed.map_blocks(blk, a, dtype=a.dtype)
+    exp = an.copy()
+    for i in range(2):
+        for j in range(2):
+            exp[2 * i : 2 * i + 2, 2 * j : 2 * j + 2] += i * 10 + j
+    assert np.allclose(mb.compute(), exp)
+    assert np.allclose(a.rechunk((1, 4)).compute(), an)
+    assert np.allclose(cubed.pad(a, ((1, 0), (0, 0)), mode="symmetric").compute(), np.pad(an, ((1, 0), (0, 0)), mode="symmetric"))
+    # stores: several pairs, a region, an existing zarr array
+    import zarr
+
+    t1, t2 = os.path.join(tmp, "s1.zarr"), os.path.join(tmp, "s2.zarr")
+    cubed.store([xp.negative(a), xp.add(a, b)], [t1, t2])
+    assert np.allclose(zarr.open_array(t1)[:], -an) and np.allclose(zarr.open_array(t2)[:], an + 1)
+    tz = zarr.create_array(os.path.join(tmp, "reg.zarr"), shape=(8, 4), chunks=(2, 2), dtype="f8", fill_value=-1.0)
+    cubed.to_zarr(xp.add(a, b), tz, region=(slice(4, 8), slice(0, 4)))
+    got = tz[:]
+    assert np.allclose(got[4:], an + 1) and np.all(got[:4] == -1.0)
+    lz = cubed.to_zarr(xp.negative(a), os.path.join(tmp, "lazy.zarr"), compute=False)
+    assert not os.path.exists(os.path.join(tmp, "lazy.zarr", "c"))
+    lz.compute()
+    assert np.allclose(zarr.open_array(os.path.join(tmp, "lazy.zarr"))[:], -an)
+    # executor options
+    ex = create_executor("threads")
+    big = xp.asarray(np.arange(40.0), chunks=2, spec=spec)
+    cb = Count()
+    w = xp.add(big, 1)
+    w2 = xp.multiply(big, 2)
+    o1, o2 = cubed.compute(w, w2, executor=ex, callbacks=[cb], compute_arrays_in_parallel=True, batch_size=3, optimize_graph=False)
+    assert np.allclose(o1, np.arange(40.0) + 1) and np.allclose(o2, np.arange(40.0) * 2)
+    starts = [v for v in cb.ev if isinstance(v, tuple) and v[0] == "os"]
+    ends = [v for v in cb.ev if isinstance(v, tuple) and v[0] == "oe"]
+    assert len(starts) == len(ends) == len({v[1] for v in starts}) and len(starts) >= 2, cb.ev
+    o3 = xp.add(big, 2).compute(executor=ex, use_backups=True, batch_size=7)
+    assert np.allclose(o3, np.arange(40.0) + 2)
+    try:
+        xp.add(a, 1).compute(executor=create_executor("single-threaded"), callbacks=[Count()])
+    except Exception:
+        raise
+    tiny = cubed.Spec(work_dir=tmp, allowed_mem=100)
+    try:
+        xp.add(xp.asarray(an, chunks=(2, 2), spec=tiny), 1).compute()
+        return 4
+    except ValueError:
+        pass
+    xp.add(a, b).visualize(filename=os.path.join(tmp, "dag"), optimize_graph=True)
     return 0
 
 
